@@ -27,6 +27,7 @@ pub fn template(name: &str) -> &'static str {
         "WW" => "{wide_msg}{wide_bar}{spinner:>3}",
         "WnM" => "{wide_bar} {pos}/{len}\n{msg}\n{spinner}",          // a wide element on a line that is not the last
         "MnW" => "{msg}\n\n{prefix}{wide_msg}|\n{bar:3}",
+        "L" => "{msg:300}|{spinner:^600}|{bar:260}|{prefix:>257}",     // fields wider than any fixed buffer of blanks
         "bad" => "{:",
         _ => "{spinner} {bar} {msg}",
     }
